@@ -49,7 +49,7 @@ type CaseA struct {
 	Follow []Follow   `json:"follow"`
 }
 
-var namePool = []string{"alice", "bob", "Neo", "op-3", "x"}
+var namePool = []string{"alice", "bob", "Neo", "op-3", "x", "kessel", "Sky"}
 
 func genUsers(t *rapid.T) []wsx.User {
 	n := rapid.IntRange(1, 3).Draw(t, "nusers")
@@ -123,9 +123,97 @@ func genA(t *rapid.T) CaseA {
 		}
 		return "upper", strings.ToUpper(right)
 	}
-	cls := rapid.SampledFrom([]string{"valid", "valid", "mutate", "mutate", "mutate", "codes", "unknown-user", "wrong-digest", "wrong-digest", "nonjson", "big", "dupkeys"}).Draw(t, "cls")
+	cls := rapid.SampledFrom([]string{"valid", "matrix", "matrix", "matrix", "valid", "mutate", "mutate", "mutate", "codes", "unknown-user", "wrong-digest", "wrong-digest", "nonjson", "big", "dupkeys"}).Draw(t, "cls")
 	var msg any
 	switch cls {
+	case "matrix":
+		// the user name appears in two places, the password in one: all three drawn independently
+		fold := func(n string) string {
+			f := strings.NewReplacer("s", "\u017f", "k", "\u212a", "S", "\u017f", "K", "\u212a").Replace(n)
+			if f == n {
+				f = strings.ToUpper(n)
+				if f == n {
+					f = strings.ToLower(n)
+				}
+			}
+			return f
+		}
+		userKinds := []string{"A", "A", "B", "unknown", "empty", "missing", "non-string", "case-variant", "whitespace-variant", "unicode-fold-variant"}
+		userVal := func(k string) (any, bool) {
+			switch k {
+			case "A":
+				return u.Name, true
+			case "B":
+				return other, true
+			case "unknown":
+				return "mallory", true
+			case "empty":
+				return "", true
+			case "missing":
+				return nil, false
+			case "non-string":
+				return rapid.SampledFrom([]any{7.0, true, []any{u.Name}, map[string]any{"Name": u.Name}, nil}).Draw(t, "user-junk"), true
+			case "case-variant":
+				if up := strings.ToUpper(u.Name); up != u.Name {
+					return up, true
+				}
+				return strings.ToLower(u.Name), true
+			case "whitespace-variant":
+				return rapid.SampledFrom([]string{u.Name + " ", " " + u.Name, u.Name + "\t", u.Name + "\n", u.Name + "\u00a0"}).Draw(t, "ws"), true
+			}
+			return fold(u.Name), true
+		}
+		hk := rapid.SampledFrom(userKinds).Draw(t, "head-user")
+		ik := rapid.SampledFrom(userKinds).Draw(t, "info-user")
+		pk := rapid.SampledFrom([]string{"digest-of-A", "digest-of-A", "digest-of-B", "digest-of-wrong-password", "empty", "missing", "null", "non-string", "digest-other-letter-case", "digest-with-whitespace", "clear-text"}).Draw(t, "password")
+		m := login(u.Name, right)
+		head := m["Head"].(map[string]any)
+		info := m["Body"].(map[string]any)["Info"].(map[string]any)
+		if v, ok := userVal(hk); ok {
+			head["User"] = v
+		} else {
+			delete(head, "User")
+		}
+		if v, ok := userVal(ik); ok {
+			info["User"] = v
+		} else {
+			delete(info, "User")
+		}
+		otherDigest := wsx.Digest("some other operator's password")
+		for _, x := range c.Users {
+			if x.Name == other {
+				otherDigest = wsx.Digest(x.Password)
+			}
+		}
+		switch pk {
+		case "digest-of-A":
+			info["Password"] = right
+		case "digest-of-B":
+			info["Password"] = otherDigest
+		case "digest-of-wrong-password":
+			info["Password"] = wsx.Digest(u.Password + "x")
+		case "empty":
+			info["Password"] = ""
+		case "missing":
+			delete(info, "Password")
+		case "null":
+			info["Password"] = nil
+		case "non-string":
+			info["Password"] = rapid.SampledFrom([]any{0.0, false, []any{right}, map[string]any{"Password": right}}).Draw(t, "pw-junk")
+		case "digest-other-letter-case":
+			info["Password"] = strings.ToUpper(right)
+		case "digest-with-whitespace":
+			info["Password"] = rapid.SampledFrom([]string{" " + right, right + " ", right + "\n"}).Draw(t, "pw-ws")
+		case "clear-text":
+			info["Password"] = u.Password
+		}
+		if rapid.IntRange(0, 3).Draw(t, "extra-fields") == 0 {
+			head["Role"] = "admin"
+			info["Authenticated"] = true
+			m["Auth"] = map[string]any{"User": u.Name, "Password": right}
+		}
+		cls = "matrix|head-user:" + hk + "|info-user:" + ik + "|password:" + pk
+		msg = m
 	case "valid":
 		msg = login(u.Name, right)
 	case "codes":
@@ -867,6 +955,11 @@ func clsKey(cls string) string {
 	if i := strings.Index(cls, ":"); i >= 0 && strings.HasPrefix(cls, "mutate") {
 		return cls[:i]
 	}
+	if strings.HasPrefix(cls, "matrix|") {
+		// head-user and password class name the input class; info-user is kept out of the
+		// signature only when it is a plain operator name
+		return cls
+	}
 	return cls
 }
 
@@ -874,11 +967,21 @@ func classifyA(c CaseA) core.Class {
 	var cl core.Class
 	rd := readFirst(append(append([]byte(nil), c.Raw...), []byte(strings.Repeat(" ", c.Pad))...), c.Users)
 	key := clsKey(c.Cls)
-	cl.Labels = append(cl.Labels, "cls:"+key, "reading:"+rd.verdict.String())
+	if strings.HasPrefix(c.Cls, "matrix|") {
+		// (its three components are labelled separately; the fingerprint keeps the password class)
+		key = "matrix"
+		if i := strings.Index(c.Cls, "|password:"); i >= 0 {
+			key += c.Cls[i:]
+		}
+	}
+	cl.Labels = append(cl.Labels, "cls:"+strings.SplitN(key, "|", 2)[0], "reading:"+rd.verdict.String())
 	if strings.HasPrefix(c.Cls, "mutate") {
 		for _, p := range strings.Split(c.Cls, ":")[1:] {
 			cl.Labels = append(cl.Labels, "mut:"+p)
 		}
+	}
+	if strings.HasPrefix(c.Cls, "matrix|") {
+		cl.Labels = append(cl.Labels, strings.Split(c.Cls, "|")[1:]...)
 	}
 	if rd.user != "" {
 		cl.Labels = append(cl.Labels, "names-operator")
